@@ -427,6 +427,11 @@ func (a *TokAPI) Sub(ctx context.Context, tok string, plan Plan) (<-chan Item, e
 	return subGeneric(a, ctx, tok, plan, func(seq int) Item { return Item{Tok: tok, Seq: seq, Pad: padFor(tok, plan.ElemPad)} })
 }
 
+// NotAChan is what TokClient.Mismatch is bound to.
+func (a *TokAPI) NotAChan(ctx context.Context, tok string, plan Plan) (string, error) {
+	return "not-a-channel-id", nil
+}
+
 // SubBare is Sub without an error result: a method whose only result is a channel.
 func (a *TokAPI) SubBare(ctx context.Context, tok string, plan Plan) <-chan Item {
 	ch, _ := subGeneric(a, ctx, tok, plan, func(seq int) Item { return Item{Tok: tok, Seq: seq, Pad: padFor(tok, plan.ElemPad)} })
@@ -612,6 +617,9 @@ type TokClient struct {
 	SubFloat func(ctx context.Context, tok string, plan Plan) (<-chan float64, error)
 	SubRich  func(ctx context.Context, tok string, plan Plan) (<-chan Rich, error)
 	SubBare  func(ctx context.Context, tok string, plan Plan) <-chan Item
+	// Mismatch is declared as a subscription here, but the server method behind it returns a string: the response
+	// cannot be turned into a channel, the call stays in flight
+	Mismatch func(ctx context.Context, tok string, plan Plan) (<-chan Item, error) `rpc_method:"Tok.NotAChan"`
 	NoCtx    func(tok string, plan Plan) (Result, error) `rpc_method:"Tok.Call"`
 }
 
